@@ -120,6 +120,12 @@ fn dispatch(ctx: &Ctx) -> bool {
         "C20" => props::poolprops::run(ctx, props::poolprops::Which::C20),
         "C21" => props::poolprops::run(ctx, props::poolprops::Which::C21),
         "C22" => props::poolprops::run(ctx, props::poolprops::Which::C22),
+        "C05" => props::leafapi::run(ctx),
+        "C14" => props::provers::run_c14(ctx),
+        "C15" => props::provers::run_c15(ctx),
+        "C16" => props::artifacts::run_c16(ctx),
+        "C17" => props::artifacts::run_c17(ctx),
+        "C18" => props::artifacts::run_c18(ctx),
         "C23" => props::publish::run(ctx),
         "C28" => props::config::run_c28(ctx),
         "C29" => props::config::run_c29(ctx),
@@ -161,6 +167,8 @@ fn run_replay(id: &str, path: &PathBuf) -> i32 {
         Some(k) if k.starts_with("c28_") || k.starts_with("c29") => props::config::replay(case),
         Some(k) if k.starts_with("c35_") => props::jsonprops::replay(case),
         Some("c23") | Some("c23_gen") => props::publish::replay(case),
+        Some("c05_honest") | Some("c05_malformed") => props::leafapi::replay(case),
+        Some(k) if k.starts_with("c14_") || k.starts_with("c15") => props::provers::replay(case),
         Some("pool_history") => props::poolprops::replay(case, id),
         Some("c24") | Some("c24_pilen") => props::parsers::replay(case),
         other => Err(format!("no replay handler for kind {:?}", other)),
